@@ -38,6 +38,41 @@ CLAIMED = {
              'code by differential execution of Preprocessor.resolve_symbols on generated tables (chains, diamonds, cycles, '
              'prefix/suffix/infix names) and, for definition order, through the C08 file tie.',
         ref='DESIGN.md §6 C09', technique='Coq proof over substitution model + correspondence by vm_compute'),
+    'C02': dict(
+        text='Theorems: .align yields the smallest multiple of the page size not below the address (all addresses, all page '
+             'sizes); bytes emitted equal bytes reserved for every line kind; lines are placed at their zone cursor, which '
+             'advances by exactly the line size and is untouched by lines of other zones; .org absolute vs zone-relative. Tied '
+             'to the code by whole-program differential runs of the real Assembler (image + listing rows) on generated programs '
+             'with labels, forward references, origins, alignments, zones, muted and conditional lines, plus kernel sweeps.',
+        ref='DESIGN.md §6 C02', technique='Coq proofs over pass-1/pass-2 model + whole-program correspondence by vm_compute'),
+    'C03': dict(
+        text='Theorems: for every line list, window and fill value the image has exactly end-start+1 bytes and at each offset the '
+             'byte an unmuted line assembled for that address, else the fill value; default end = highest address with an emitted '
+             'byte; every byte of a line counts at its own address, none outside its range, muted lines nowhere. Tied to the code '
+             'by whole-program runs with windows starting/ending inside multi-byte lines, beyond the code, sparse maps.',
+        ref='DESIGN.md §6 C03', technique='Coq proof (image = pointwise window of address->byte spec) + whole-program correspondence'),
+    'C04': dict(
+        text='Theorems: the sort is a stable permutation sorted by address; any two byte-producing lines covering a common address, '
+             'in any source order, make the overlap check fail; pairwise disjoint non-empty lines are never rejected. Tied to the '
+             'code by whole-program runs placing lines via origins, zone-relative origins, nested zones, fills, predefined data.',
+        ref='DESIGN.md §6 C04', technique='Coq proof (sorted adjacent check <-> pairwise disjointness) + whole-program correspondence'),
+    'C05': dict(
+        text='Theorems: zone cursor stays in [start,end+1] through pass 1; bytes of a placed line lie inside its zone or the line is '
+             'rejected; other zones never move a zone cursor (stretches concatenate); zone-relative vs absolute origins; created '
+             'zones inside GLOBAL, fresh, non-inverted, within address width. Tied to the code by exhaustive small-box sweeps of the '
+             'cursor setter and zone creation and by whole-program runs switching zones, with includes.',
+        ref='DESIGN.md §6 C05', technique='Coq invariant proofs over zone model + sweeps and whole-program correspondence'),
+    'C06': dict(
+        text='Theorems: a reference resolves only to a label stored under the referencing line\'s own local region, its own file, or '
+             'the global scope (never a register); definitions are stored under the key their prefix prescribes; duplicates, local '
+             'labels without region and keywords are rejected. Tied to the code by random LabelScope operation sequences and '
+             'multi-file whole-program runs with same-named labels in different regions and files.',
+        ref='DESIGN.md §6 C06', technique='Coq proofs over scope model + API-sequence and whole-program correspondence'),
+    'C11': dict(
+        text='Theorems: data values are emitted modulo 2^(8w) in the configured byte order with exactly w bytes; fill = n copies of '
+             'the low byte; zerountil size = max(0, a-addr+1); strings one byte per character, terminator appended for cstr/asciiz. '
+             'Tied to the code by differential runs of string directives (escapes, both quotes, all terminators) and whole programs.',
+        ref='DESIGN.md §6 C11', technique='Coq proofs over data-directive model + string/whole-program correspondence'),
 }
 
 ALL = [f'C{i:02d}' for i in range(1, 21)]
